@@ -9,6 +9,7 @@ CONSTANTS
   MaxStop = 1000000
   MaxTrunc = 1
   TruncAll = FALSE
+  AllowEagerPad = TRUE
   Bug_TrailerThresholdOffByOne = FALSE
   Bug_NoOffsetRestoreOnReopen = FALSE
   Bug_ReaderSplicesFragments = FALSE
